@@ -11,10 +11,11 @@ From BigNum Require Import Base BaseLemmas AddSub SpecAddSub AddSubProofs ShiftC
 Open Scope Z_scope.
 
 (** * Vocabulary *)
-Definition hist_ok (P : hist_params) : bool :=
+Definition hist_ok_core (P : hist_params) : bool :=
   addsub_ok (hp_as P) && div_ok (hp_div P) && bits_ok (hp_bits P) &&
-  mul_ok (hp_mul P) && pow_ok (hp_pow P) && gcd_ok (hp_gcd P) && roots_ok (hp_roots P) && radix_ok (hp_radix P) &&
-  iter_ok (hp_iter P).
+  mul_ok (hp_mul P) && pow_ok (hp_pow P) && gcd_ok (hp_gcd P) && roots_ok (hp_roots P) && radix_ok (hp_radix P).
+Definition hist_ok (P : hist_params) : bool :=
+  hist_ok_core P && iter_ok (hp_iter P) && serde_ok (hp_serde P).
 
 (** What the operations that MULTIPLY (`*=`, pow, cbrt, nth_root, lcm) and the text of values of
     64 digits and more rest on: the two statements of property C02 (area `mul`, not yet proved
@@ -61,15 +62,17 @@ Lemma hist_ok_inv P : hist_ok P = true ->
   mul_ok (hp_mul P) = true /\ pow_ok (hp_pow P) = true /\ gcd_ok (hp_gcd P) = true /\
   roots_ok (hp_roots P) = true /\ radix_ok (hp_radix P) = true.
 Proof.
-  unfold hist_ok. intros H. apply andb_prop in H as [H _].
+  intros H0. assert (H : hist_ok_core P = true) by (unfold hist_ok in H0; rewrite !andb_true_iff in H0; tauto).
+  unfold hist_ok_core in H.
   apply andb_prop in H as [H H8]. apply andb_prop in H as [H H7]. apply andb_prop in H as [H H6].
   apply andb_prop in H as [H H5]. apply andb_prop in H as [H H4]. apply andb_prop in H as [H H3].
   apply andb_prop in H as [H1 H2]. repeat split; assumption.
 Qed.
 
 (** the conditions of the areas whose parameters were added later (iter, ...) *)
-Lemma hist_ok_inv2 P : hist_ok P = true -> iter_ok (hp_iter P) = true.
-Proof. unfold hist_ok. intros H. apply andb_prop in H as [_ H]. exact H. Qed.
+Lemma hist_ok_inv2 P : hist_ok P = true ->
+  iter_ok (hp_iter P) = true /\ serde_ok (hp_serde P) = true.
+Proof. unfold hist_ok. rewrite !andb_true_iff. tauto. Qed.
 
 (** ** consequences of the two multiplication statements *)
 Section MulFacts.
@@ -341,8 +344,7 @@ Section Step.
 End Step.
 
 (** * Constructors: whatever redundancy the input has, the object is the canonical one *)
-Lemma ser_sign_z s : ser_sign s = sign_z s. Proof. destruct s; reflexivity. Qed.
-Lemma ser_sign_ok s : (ser_sign s =? -1) || (ser_sign s =? 0) || (ser_sign s =? 1) = true.
+Lemma ser_sign_ok s : (sign_z s =? -1) || (sign_z s =? 0) || (sign_z s =? 1) = true.
 Proof. destruct s; reflexivity. Qed.
 Lemma words_is_word w : inb (2 ^ 32) w -> forallb is_word w = true.
 Proof. intros H. change (forallb is_word w) with (forallb is_u32 w). apply is_u32_inb. exact H. Qed.
@@ -374,7 +376,7 @@ Proof.
   - rewrite ufrom_slice_spec by auto. reflexivity.
   - rewrite ufrom_bytes_le_spec by auto. reflexivity.
   - rewrite ufrom_bytes_be_spec by auto. reflexivity.
-  - rewrite de_biguint_tokens_spec. unfold spec_de. rewrite words_is_word by auto. reflexivity.
+  - rewrite de_biguint_tokens_spec by apply (hist_ok_inv2 P HP). unfold spec_de. rewrite words_is_word by auto. reflexivity.
   - unfold biguint_from_vec. rewrite from_biguint_ienc by (apply canon_strip; auto). rewrite val_strip. reflexivity.
   - rewrite inew_spec by auto. reflexivity.
   - rewrite ifrom_slice_spec by auto. reflexivity.
@@ -382,8 +384,8 @@ Proof.
   - rewrite ifrom_bytes_be_spec by auto. reflexivity.
   - rewrite from_signed_bytes_le_spec by auto. reflexivity.
   - rewrite from_signed_bytes_be_spec by auto. reflexivity.
-  - rewrite de_bigint_spec. unfold spec_ide, spec_de. rewrite ser_sign_ok, words_is_word by auto.
-    cbn [option_map of_opt bind]. rewrite ser_sign_z. reflexivity.
+  - rewrite de_bigint_spec by apply (hist_ok_inv2 P HP). unfold spec_ide, spec_de. rewrite ser_sign_ok, words_is_word by auto.
+    cbn [option_map of_opt bind]. reflexivity.
   - unfold biguint_from_vec. rewrite ifrom_u_spec by (apply canon_strip; auto). rewrite val_strip. reflexivity.
   - destruct H as [Hb Hr]. destruct (radix_le_ok b r Hb Hr) as [By E].
     rewrite inst_from_radix_le by auto. rewrite E. reflexivity.
